@@ -1206,6 +1206,12 @@ class CryptographyEngine(api.CryptographicEngine):
                         "specified."
                     )
 
+                if iteration_count < 1:
+                    raise exceptions.InvalidField(
+                        "For PBKDF2 key derivation, iteration count must be "
+                        "at least 1."
+                    )
+
                 df = pbkdf2.PBKDF2HMAC(
                     algorithm=hashing_algorithm(),
                     length=derivation_length,
